@@ -2,6 +2,7 @@
   C12 — a probe succeeds only on genuine evidence; indirect probing is routed correctly.
 -/
 import FocaModel.Proofs.SendAll
+import FocaModel.Props.C13
 import FocaModel.Proofs.SwapRemove
 import FocaModel.Proofs.Units
 namespace Foca.C12
